@@ -391,6 +391,14 @@ class V:
         if k.denominator != 1:
             if self.is_const() and self.const_value() >= 0 and k == Fraction(1, 2):
                 return sqrt(self)
+            if k.denominator in (2, 4, 8):
+                # dyadic rational exponent: exact through nested square roots (x >= 0 is the domain of the real power)
+                r = self
+                q = k.denominator
+                while q > 1:
+                    r = sqrt(r)
+                    q //= 2
+                return r ** int(k.numerator)
             return atom_pow(self, as_v(k))
         k = int(k)
         if k == 0:
